@@ -27,8 +27,7 @@ TRUSTED_BASE = ["Coq 8.16.1 kernel + vm_compute", "functional_extensionality_dep
                 "harness/fake_redis: stand-in for redis-py and the server including CLIENT TRACKING BCAST redirect semantics (one invalidation per modified / expired key to every "
                 "tracking connection, the writer included; a flush message for FLUSHDB), written from the documentation",
                 "message delivery is driven to completion between events (the property's quiescent points)"]
-ASSUMPTIONS = ["server reachable for commands (C19 covers an unreachable server); only the subscription connection is dropped", "TTLs are multiples of 0.125 s (local float deadlines and server ms deadlines coincide)",
-               "counters stay positive"]
+ASSUMPTIONS = ["server reachable for commands (C19 covers an unreachable server); only the subscription connection is dropped", "TTLs are multiples of 0.125 s (local float deadlines and server ms deadlines coincide)"]
 EXHAUSTIVE = {"quick": False, "thorough": False}
 ALLOWED_AXIOMS = ["FunctionalExtensionality.functional_extensionality_dep"]   # through the server model's refinement theorem; named in TRUSTED_BASE
 U = sorted(["a", "b", "ab", "n"])
@@ -48,7 +47,7 @@ def _rand_cmd(rng):
     if r < 0.36: return ["exists", rng.choice(U)]
     if r < 0.58: return ["set", k, enc(rng.choice(VALUES)), ttl, rng.choice([None, None, None, True, False, False])]
     if r < 0.63: return ["set_many", [[kk, enc(rng.choice(VALUES))] for kk in rng.sample(["a", "b", "ab"], rng.randint(1, 2))], ttl]
-    if r < 0.75: return ["incr", "n", rng.choice([1, 1, 2]), rng.choice([0, 0, 1.0])]
+    if r < 0.75: return ["incr", "n", rng.choice([1, 1, 2, -1, -1, 0]), rng.choice([0, 0, 1.0])]
     if r < 0.83: return ["delete", rng.choice(U)]
     if r < 0.86: return ["delete_many", rng.sample(U, rng.randint(1, 2))]
     if r < 0.90: return ["delete_match", rng.choice(["a*", "*b", "n", "*"])]
@@ -96,7 +95,7 @@ def run_impl(case):
                 if e is None: sd.append(None); continue
                 kind, v, exp = e
                 if kind != "string": sd.append([["other", kind], None]); continue
-                if v.isdigit(): val = ["num", int(v)]
+                if v.isdigit() or (v[:1] == b"-" and v[1:].isdigit()): val = ["num", int(v)]
                 else: val = ["val", enc(await cl[0]._serializer.decode(cl[0], key=PREFIX + k, value=v, default=None))]
                 sd.append([val, None if exp is None else exp - BASE_MS])
             cds = []
